@@ -48,6 +48,56 @@ CHECKS = {
         design="§4 C14",
         technique="Lean 4 proof (induction over the loop) + trace validation against the implementation",
     ),
+    "C20": dict(
+        text="Lean 4 theorems: np.array_split loses nothing for any number of chunks >= 1, so the parallel wrapper reports exactly the wrapped "
+        "strategy's utilities and (equal seed) selection for pointwise scores (arraySplit_flatten, parallel_eq_inner, parallel_selection_eq_inner, "
+        "nChunks_pos/_le); the sub-sampling wrapper's caller-space utilities row equals the documented one for all index lists (subRowCode_eq_spec), "
+        "the sub-sample has the documented size and picks lie inside it (subSample_spec), and the exclude_non_subsample index translation is the "
+        "identity on the sub-sample (expand_innerCands). Tie: paired wrapper/inner runs with a recording proxy and a spy on the sub-sample draw; "
+        "chunk sizes, sub-sample size, index translation and every utilities row are compared with the model; the property clauses are evaluated "
+        "on every real output. The single-annotator wrapper clause is proved in Props/C07 (annotWrapper_sample_order).",
+        design="§4 C20",
+        technique="Lean 4 proof + model/implementation correspondence with recording proxies",
+    ),
+    "C04": dict(
+        text="Lean 4 theorems over any ordered field: the guarded decayed counter stays in [0, b*w+1) and grants < b*n + n/w + b*w + 1 for every "
+        "wanted-stream, window w >= 1, budget b > 0 and prefix n (guarded_decay_bound); every window-based manager refines that process "
+        "(fixed/variable/randVar/split/random _guarded and _budget_respected); dbSplit_bound (<= b*n+1), periodic_bound and "
+        "randomSampling_strict_bound (<= b*n); chunked_grants_eq: the bounds hold however the stream is chunked. Tie: bit-exact Float "
+        "correspondence of u_t_, theta_, counters and decisions after every chunk with numpy's captured draws, boundary streams (u/w == b), "
+        "adversarial utilities; the exact rational bound is evaluated at every prefix of every real run.",
+        design="§4 C04",
+        technique="Lean 4 proof (invariant by induction over the stream, refinement) + bit-exact model/implementation correspondence",
+    ),
+    "C03": dict(
+        text="Lean 4 theorems: for every budget manager, both baselines and the utility / density / cognitive strategy models, query returns the "
+        "object state unchanged (X_query_pure; the models mirror the code's mutate-then-restore structure, and unrestored_query_not_pure shows "
+        "the statement is not vacuous), repeated queries agree, and inserting extra queries anywhere in any history leaves all later results "
+        "and the final state unchanged (extra_queries_irrelevant, induction over histories). Tie: state-level correspondence (deep attribute "
+        "snapshots incl. RandomState.get_state()) before/after every call on all exported stream strategies x managers; twin histories with "
+        "extra queries.",
+        design="§4 C03",
+        technique="Lean 4 proof (purity + induction over histories) + state-snapshot correspondence",
+    ),
+    "C10": dict(
+        text="Lean 4 theorems: queried indices strictly increasing and in range for all managers/strategies; update commits exactly the "
+        "simulated state (X_update_commits); chunk_invariance_{fixed,variable,split,random,biqf,streamRandom,periodic} for every stream and "
+        "every two chunkings; cognitive_update_accepts / density_update_accepts at full strength on the repaired code; counterexamples for the "
+        "recorded chunk-dependence finding of the density strategies with density_chunk_invariance_partial. Tie: bit-exact correspondence under "
+        "random rechunkings, update fed with query results and with foreign index lists, spies on what the manager receives.",
+        design="§4 C10",
+        technique="Lean 4 proof (refinement of chunked to per-instance process) + bit-exact correspondence",
+    ),
+    "C07": dict(
+        text="Lean 4 theorems: transformCandAnnot_spec for all nine candidates x annotators cases, batch clipping to available pairs, "
+        "nToAssign_terminates (unconditional on the repaired loop; the old loop's divergence kept as a regression theorem), "
+        "queryAnnotators_valid / wrapperQuery_valid (k distinct available pairs, utilities NaN at unavailable and earlier pairs, annotators per "
+        "sample respected, samples in the inner strategy's order), iet_valid for IntervalEstimationThreshold. Tie: SingleAnnotatorWrapper around "
+        "17 inner strategies and IntervalEstimationThreshold over the 3x3 specification grid with captured inner results and noise; property "
+        "oracle on every real output under a timeout alarm.",
+        design="§4 C07",
+        technique="Lean 4 proof + model/implementation correspondence with spies",
+    ),
 }
 
 NOT_YET = "check not built yet in this round (design in DESIGN.md §4); no claim is made"
